@@ -67,7 +67,7 @@ def _sorted(keys):
 
 def _item_by_key(value, key, keys, i = None):
     if isinstance(value, dict):
-        if _sorted(value.keys()) == keys:
+        if len(value) == len(keys) and all(k in value for k in keys): # the same key SET (keys are distinct): no ordering of the keys is needed, and 1 / 1.0 are one key as they are for the dict
             return value[key]
         else:
             return type(value)({k : _item_by_key(v, key, keys, i) for k, v in value.items()})
